@@ -119,7 +119,9 @@ func Parse(text string) []Report {
 				if strings.Contains(m[1], "github.com/dave/dst") {
 					fn := strings.TrimPrefix(strings.TrimPrefix(m[1], "github.com/dave/dst/"), "github.com/dave/dst")
 					file := m[2]
-					if j := strings.Index(file, "/repo/"); j >= 0 {
+					if j := strings.Index(file, "/.build/inst/"); j >= 0 {
+						file = file[j+13:]
+					} else if j := strings.Index(file, "/repo/"); j >= 0 {
 						file = file[j+6:]
 					}
 					side = fmt.Sprintf("%s@%s", fn, file)
